@@ -84,4 +84,146 @@ example :
     let w1 := (stepOp cfg {} (.create "s") [.nuts, .web] .failNuts).1
     w1.dids = [] ∧ (stepOp cfg w1 (.create "s") [.nuts, .web] .none).2 = "ok" := by decide
 
+/-! ### The property (for the code as it is now: `Fixed cfg` is discharged by `cfgNow_fixed`)
+
+`Reach cfg w`: `w` is reachable from the empty database by ANY sequence of operations — each with ANY fault
+(`Fault.none`, the did:nuts commit fails, the process stops before the k-th Commit call or before the clean-up
+transaction), ANY iteration order of the method map —, clock ticks and sweeps (ANY iteration order of the grouped
+transactions), where an operation starts only on a subject without change records (`Clean`, see the assumptions). -/
+
+section
+variable {cfg : Cfg}
+
+/-- **all DIDs of a subject move together**: in every reachable world the DIDs of one subject have the same version
+    numbers, the same time stamps, the same services and the same change records, version by version -/
+theorem uniform_versions (hfix : Fixed cfg) (hms : cfg.methods.Nodup) {w : World} (h : Reach cfg w) :
+    ∀ r ∈ w.dids, ∀ r2 ∈ w.dids, r.subject = r2.subject →
+      r.vers.map (·.n) = r2.vers.map (·.n) ∧ r.vers.map (·.ts) = r2.vers.map (·.ts) ∧
+      r.vers.map (·.c.svcs) = r2.vers.map (·.c.svcs) ∧ r.vers.map (·.pending) = r2.vers.map (·.pending) := by
+  intro r hr r2 hr2 hs
+  have hsig := (reach_inv hfix hms h).uniform r hr r2 hr2 hs
+  have e1 := congrArg (List.map (·.1)) hsig
+  have e2 := congrArg (List.map (·.2.1)) hsig
+  have e3 := congrArg (List.map (·.2.2.1)) hsig
+  have e4 := congrArg (List.map (·.2.2.2)) hsig
+  simp only [sig, List.map_map] at e1 e2 e3 e4
+  exact ⟨e1, e2, e3, e4⟩
+
+/-- **versions are consecutive**: the versions of every DID are numbered `0 … n-1` without gaps (newest first), every DID
+    has at least one version, and only the newest version can carry a change record -/
+theorem versions_consecutive (hfix : Fixed cfg) (hms : cfg.methods.Nodup) {w : World} (h : Reach cfg w) :
+    ∀ r ∈ w.dids, r.vers.map (·.n) = (List.range r.vers.length).reverse ∧ r.vers ≠ [] ∧
+      ∀ v ∈ r.vers.tail, v.pending = none := by
+  intro r hr
+  have hi := reach_inv hfix hms h
+  exact ⟨consec_range _ (hi.consec r hr), hi.noOrphan r hr, hi.topOnly r hr⟩
+
+/-- **versions only grow**: a version without a change record is never deleted — not by an operation (whatever its
+    fault), not by a sweep. (Together with `versions_consecutive`: only the uncommitted top can disappear.) -/
+theorem versions_consecutive_monotone (hfix : Fixed cfg) (hms : cfg.methods.Nodup) {w : World} (h : Reach cfg w) :
+    (∀ r ∈ w.dids, r.vers.map (·.n) = (List.range r.vers.length).reverse) ∧
+    (∀ (o : Op) (order : List Method) (f : Fault), Clean w.dids o.subject →
+        Keeps w.dids (stepOp cfg w o order f).1.dids) ∧
+    (∀ ord : List Nat → List Nat, (∀ l, (ord l).Perm l) → Keeps w.dids (sweep cfg ord w).1.dids) := by
+  have hi := reach_inv hfix hms h
+  refine ⟨fun r hr => consec_range _ (hi.consec r hr), ?_, ?_⟩
+  · intro o order f hc
+    exact stepOp_keeps o order f hfix hms hi hc
+  · intro ord hord
+    exact (sweep_spec ord hfix hord hi).2.2.2.2.2.1
+
+/-- **a subject name maps to at most one DID set**: at most one DID per method, and `Create` on a subject that has DIDs
+    is rejected without touching anything -/
+theorem subject_unique (hfix : Fixed cfg) (hms : cfg.methods.Nodup) {w : World} (h : Reach cfg w) :
+    (∀ r ∈ w.dids, ∀ r2 ∈ w.dids, r.subject = r2.subject → r.method = r2.method → r = r2) ∧
+    (∀ (s : String) (order : List Method) (f : Fault), (∃ r ∈ w.dids, r.subject = s) →
+        stepOp cfg w (.create s) order f = (w, "err:exists")) := by
+  have hi := reach_inv hfix hms h
+  constructor
+  · intro r hr r2 hr2 hs hm
+    exact eq_of_nodup_map (·.id) w.dids hi.idsNodup r hr r2 hr2 (hi.oneMethod r hr r2 hr2 hs hm)
+  · rintro s order f ⟨r, hr, hs⟩
+    have : w.dids.any (fun r => decide (r.subject = s)) = true := by
+      simp only [List.any_eq_true, decide_eq_true_eq]; exact ⟨r, hr, hs⟩
+    simp [stepOp, tx1, tx1Create, this]
+
+/-- **after the sweep no change records remain and every DID shows a version it had before**: in every reachable world
+    in which all change records are older than the threshold, the sweep succeeds, leaves no change record, keeps every
+    version that had no change record, and every DID that is left is a DID from before that lost at most its newest
+    (pending) versions; the result is again uniform per subject -/
+theorem all_or_nothing (hfix : Fixed cfg) (hms : cfg.methods.Nodup) {w : World} (h : Reach cfg w)
+    (ord : List Nat → List Nat) (hord : ∀ l, (ord l).Perm l)
+    (hold : ∀ r ∈ w.dids, ∀ v ∈ r.vers, v.pending ≠ none → v.ts + cfg.threshold < w.now) :
+    (sweep cfg ord w).2 = "ok" ∧ logCount (sweep cfg ord w).1 = 0 ∧
+    Keeps w.dids (sweep cfg ord w).1.dids ∧ Fate w.dids (sweep cfg ord w).1.dids ∧
+    (∀ r ∈ (sweep cfg ord w).1.dids, ∀ r2 ∈ (sweep cfg ord w).1.dids, r.subject = r2.subject → r.vers.length = r2.vers.length) := by
+  have hi := reach_inv hfix hms h
+  rcases sweep_spec ord hfix hord hi with ⟨hok, hinv, _, _, _, hk, hfate, hnew⟩
+  refine ⟨hok, ?_, hk, hfate, ?_⟩
+  · apply logCount_zero
+    intro r' hr' v' hv'
+    cases hp : v'.pending with
+    | none => rfl
+    | some p =>
+      rcases hfate r' hr' with ⟨r, hr, _, _, hfrom⟩
+      rcases hfrom v' hv' p hp with ⟨v, hv, hpv, hts⟩
+      have h1 := hold r hr v hv (by rw [hpv]; simp)
+      have h2 := hnew r' hr' v' hv' p hp
+      simp only [isOld, decide_eq_false_iff_not] at h2
+      rw [← hts] at h2
+      exact absurd h1 h2
+  · intro r hr r2 hr2 hs
+    have := congrArg List.length (hinv.uniform r hr r2 hr2 hs)
+    simpa [sig] using this
+
+/-- **a failed commit is undone at once**: when a Commit fails, the clean-up transaction restores exactly the rows
+    from before the operation (no version, no DID, no change record of the attempt is left) -/
+theorem failed_commit_restores (hfix : Fixed cfg) (hms : cfg.methods.Nodup) {w : World} (h : Reach cfg w)
+    (o : Op) (order : List Method) (f : Fault) (hc : Clean w.dids o.subject) {w1 : World} {chs : List Change} {e : String}
+    (ht : tx1 cfg w o = .ok (w1, chs)) (hph : (commitLoop f chs order 0 w1.pub).2 = .failed e) :
+    (stepOp cfg w o order f).1.dids = w.dids ∧ (stepOp cfg w o order f).2 = "err:" ++ e := by
+  have hi := reach_inv hfix hms h
+  have ht1 := tx1_ok hms hi hc ht
+  unfold stepOp
+  rw [ht]
+  simp only
+  rcases hcl : commitLoop f chs order 0 w1.pub with ⟨pub, ph⟩
+  rw [hcl] at hph
+  simp only at hph
+  subst hph
+  simp only
+  refine ⟨?_, trivial⟩
+  unfold tx2
+  simp only [if_true]
+  rw [deleteChanges_dids (w := { w1 with pub := pub }) ht1.1 ht1.2.1]
+  exact (tx1_restore hfix hi ht : w1.dids.filterMap _ = w.dids)
+
+/-- **a repeated attempt can succeed**: whether the first transaction of an operation succeeds depends on the rows only —
+    so after `failed_commit_restores` (rows restored) the same operation is enabled exactly as it was -/
+theorem retry_enabled {w w' : World} (o : Op) (hd : w'.dids = w.dids) :
+    (tx1 cfg w' o).isOk = (tx1 cfg w o).isOk := by
+  cases o <;> simp only [tx1, tx1Create, tx1Update, hd] <;> (repeat' split) <;> rfl
+
+end
+
+/-! non-vacuity: a reachable world with a pending (stopped) update on two DIDs, swept after the threshold -/
+
+def wStopped : World :=
+  (stepOp (cfgNow [.nuts, .web])
+    (stepOp (cfgNow [.nuts, .web]) {} (.create "s") [.nuts, .web] .none).1 (.addKey "s") [.web, .nuts] (.stop 1)).1
+
+theorem wStopped_reach : Reach (cfgNow [.nuts, .web]) (tick 61 wStopped) := by
+  refine Reach.tick 61 (Reach.op _ _ _ (Reach.op _ _ _ Reach.init ?_) ?_)
+  · intro r hr; cases hr
+  · intro r hr _ v hv
+    have : ∀ r ∈ (stepOp (cfgNow [.nuts, .web]) {} (.create "s") [.nuts, .web] .none).1.dids, ∀ v ∈ r.vers, v.pending = none := by decide
+    exact this r hr v hv
+
+example : logCount (tick 61 wStopped) = 2 ∧
+    (∀ r ∈ (tick 61 wStopped).dids, ∀ v ∈ r.vers, v.pending ≠ none → v.ts + (cfgNow [.nuts, .web]).threshold < (tick 61 wStopped).now) ∧
+    ((sweep (cfgNow [.nuts, .web]) id (tick 61 wStopped)).1.dids.map (·.vers.length)) = [1, 1] := by decide
+
+example : ∃ w1 chs e, tx1 (cfgNow [.nuts, .web]) {} (.create "s") = .ok (w1, chs) ∧
+    (commitLoop .failNuts chs [.web, .nuts] 0 w1.pub).2 = .failed e := ⟨_, _, _, rfl, rfl⟩
+
 end Nuts.C13.Props
